@@ -92,16 +92,18 @@ Example route_d0 :
   route O0 (b "/mod/a.!/@v/list") = RNotFound.
 Proof. vm_compute. repeat split. Qed.
 
-(* a stored version whose .info has no Short field (here: no .info at all) matches EVERY commit
-   hash, because strings.HasPrefix(vers, "") holds: the model follows the code *)
+(* a stored version whose .info has no Short field (here: no .info at all) answers for NO commit
+   hash (corrected behaviour; the unfixed code matched it with every hash because
+   strings.HasPrefix(vers, "") holds, and served v1.1.0 for all three requests below) *)
 Definition d2 : dir :=
   [ (b "a.b_v1.0.0.txt", EFile [(b ".info", b "abc123"); (b ".mod", b "m10")]);
     (b "a.b_v1.1.0.txt", EFile [(b ".mod", b "m11")]) ].
 
-Example empty_short_matches_any_hash :
+Example empty_short_matches_no_hash :
   read_mod_list O0 d2 = Some [(b "a.b", b "v1.0.0"); (b "a.b", b "v1.1.0")] /\
-  respond O0 d2 [(b "a.b", b "v1.0.0"); (b "a.b", b "v1.1.0")] (b "/mod/a.b/@v/abc.mod") = OkBytes (b "m11") /\
-  respond O0 d2 [(b "a.b", b "v1.0.0"); (b "a.b", b "v1.1.0")] (b "/mod/a.b/@v/0123456789.mod") = OkBytes (b "m11").
+  respond O0 d2 [(b "a.b", b "v1.0.0"); (b "a.b", b "v1.1.0")] (b "/mod/a.b/@v/abc.mod") = OkBytes (b "m10") /\
+  respond O0 d2 [(b "a.b", b "v1.0.0"); (b "a.b", b "v1.1.0")] (b "/mod/a.b/@v/0123456789.mod") = NotFound /\
+  respond O0 d2 [(b "a.b", b "v1.0.0"); (b "a.b", b "v1.1.0")] (b "/mod/a.b/@v/f.mod") = NotFound.
 Proof. vm_compute. repeat split. Qed.
 
 (* concurrency: three handlers (two of them for the same zip), one explicit interleaving *)
